@@ -1,6 +1,7 @@
 (* Entry points for the extracted OCaml driver. *)
 From MLPE Require Export Engine.Run Spec.Fragments.
 From MLPE Require Pure.FsStore Pure.Validate Pure.Viewer.
+From MLPE Require Import Explore.StateEq Explore.Erase Explore.Explorer Explore.Paths.
 
 Record result := {
   r_main : option (tstate frame);
@@ -61,3 +62,7 @@ Definition viewer_case (ds : decls) (infos : list Viewer.ninfo) : Viewer.vconfig
                             | None => {| Viewer.ni_name := 0; Viewer.ni_verbose := 0; Viewer.ni_type := None; Viewer.ni_doc := None;
                                          Viewer.ni_generic := false |}
                             end).
+
+(* every transition of the explored, history-free state graph of one program, each as an action list from the initial state *)
+Definition paths_case (P : prog) (wc : bool) : option (list (list action)) :=
+  explore_paths P wc (Nat.mul 2000 1000) [(erase (init_state), [])] [] [].
